@@ -263,6 +263,50 @@ def sc_timers(rng, quick):
     return out
 
 
+def sc_last_reception(rng, quick):
+    """C44, "never earlier / within one cycle of 1 ms without any received link command or header packet": every kind of
+    reception as the LAST thing the partner sends before it falls silent.  The partner's last intact link command is
+    sent at a known point, `gap` cycles later comes the reception under test, then silence until the DUT asks for
+    recovery: TLC judges the moment `trained` falls against the last *intact* header packet / link command (a
+    corrupted one, or a header with an unexpected number, must not restart the 1 ms; an intact header must, also while
+    the receiver discards headers after its LBAD)."""
+    out = []
+    gaps = [300] if quick else [60, 300, 700]
+
+    def case(name, ops, gap):
+        out.append(("last-%s-gap%d" % (name, gap),
+                    bringup(cfg={"auto_ka": None, "auto": 1.0}) + [("lc", P.LDN, 0), ("wait", gap)] + ops
+                    + [("wait_down", 1100), ("config", {"auto_ka": AUTO["auto_ka"]}), ("train", {}), ("wait_ready",),
+                       ("hdr", "good", 0), ("offer",), ("quiet",)]))
+
+    ign = [("hdr", "bad16", 0), ("wait", 30)]          # the DUT sends LBAD and ignores headers from here on
+    for g in gaps:
+        case("good-header", [("hdr", "good", 0)], g)
+        case("bad-crc5-header", [("hdr", "bad5", 0)], g)
+        case("bad-crc16-header", [("hdr", "bad16", 0)], g)
+        case("wrong-number-header-while-ignoring", ign + [("wait", 200), ("hdr", "good", 2)], g)
+        case("good-header-while-ignoring", ign + [("wait", 200), ("hdr", "good", 0)], g)
+        case("good-header-after-corrupted-lrty", ign + [("lc", P.LRTY, 0, "crc"), ("wait", 150), ("hdr", "good", 0)], g)
+        case("good-header-after-replica-corrupted-lrty", ign + [("lc", P.LRTY, 0, "replica"), ("wait", 200),
+                                                                ("hdr", "good", 0), ("wait", 90), ("hdr", "good", 0)], g)
+        case("good-header-after-lrty", ign + [("lc", P.LRTY), ("wait", 150), ("hdr", "good", 0)], g)
+        case("link-command", [("lc", P.LDN, 0)], g)
+        case("crc-corrupted-link-command", [("lc", P.LDN, 0, "crc")], g)
+        case("replica-corrupted-link-command", [("lc", P.LDN, 0, "replica")], g)
+    return out
+
+
+def sc_last_transmission(rng, quick):
+    """C44, keep-alive side: every kind of link command of the DUT (LGOOD, LCRD, LBAD, LRTY, LUP) and a header packet as
+    its last transmission before an idle stretch: the next keep-alive is due K cycles after the last link *command*."""
+    s = bringup()
+    s += [("hdr", "good", 0), ("wait", 45), ("consume", 1), ("wait", 45)]                       # LGOOD ... LCRD ...
+    s += [("hdr", "bad16", 0), ("wait", 45), ("lc", P.LRTY), ("wait", 20)]                       # LBAD ...
+    s += [("config", {"auto_ack": None}), ("offer",), ("wait", 45), ("lc", P.LBAD), ("wait", 45),   # header packet, LRTY
+          ("config", {"auto_ack": 3}), ("lc", P.LGOOD, "ok"), ("lc", P.LCRD, "ok"), ("wait", 45), ("quiet",)]
+    return [("last-transmission-kinds", s)]
+
+
 def sc_flow(rng, quick, n=None):
     """C37 / C39 / C33: traffic in both directions with stalls, corrupted headers, LBAD / LRTY, credit exhaustion."""
     out = []
@@ -605,7 +649,12 @@ def extra_C38(rep):
 
 
 def extra_C44(rep):
-    _run(rep, "C44", [("timers", sc_timers)], ["timers"])
+    _run(rep, "C44", [("timers", sc_timers), ("last_reception", sc_last_reception),
+                      ("last_transmission", sc_last_transmission)], ["timers"],
+         extra_assume=("ss_linklayer C44 reading: a header packet counts as received (restarts the 1 ms recovery time) when it "
+                       "arrives with both CRCs good and the expected sequence number, also while the receiver discards "
+                       "headers between its LBAD and the partner's LRTY; corrupted headers / link commands and headers "
+                       "with an unexpected number do not count",))
 
 
 def extra_C33(rep):
